@@ -308,6 +308,11 @@ impl Property for C04 {
         }
         let t = spec.threshold;
         let res = b.block.verify(t, auth.iter());
+        // the verdict does not depend on how the authorised keys are handed over (here: an iterator without a known length)
+        let lazy = b.block.verify(t, auth.iter().filter(|_| true));
+        if lazy.is_ok() != res.is_ok() {
+            o.fail("C04/verdict-depends-on-iterator-kind", format!("verify(t={}) over a slice iterator: {:?}; over a filtered iterator: {:?}", t, res.as_ref().map(|_| ()), lazy.as_ref().map(|_| ())), "one verdict");
+        }
         let enough = t >= 1 && good.len() as u64 >= t as u64;
         o.class(if res.is_ok() { "verdict:ok" } else { "verdict:err" });
         o.class(if enough { "truth:enough" } else { "truth:not-enough" });
